@@ -52,9 +52,21 @@ type Case struct {
 
 const deadline = 20 * time.Second
 
-type hangErr string
+// hangErr: a deadline passed. blocked is what was stuck inside go9p at that moment,
+// i.e. while the held requests were still parked: a stall that lasts only as long as
+// some request is parked in the implementation is gone once run() has released it.
+type hangErr struct{ msg, blocked string }
 
-func (h hangErr) Error() string { return string(h) }
+func (h *hangErr) Error() string { return h.msg }
+
+func hang(format string, args ...interface{}) error {
+	return &hangErr{msg: fmt.Sprintf(format, args...), blocked: hx.BlockedInGo9p()}
+}
+
+// hangs counts deadlines without a culprit; after a few of them the remaining cases
+// of the process are not run (each costs the full deadline, the verdict is
+// "inconclusive" already)
+var hangs int
 
 var kinds = []string{"walk", "open", "create", "read", "write", "stat", "wstat", "clunk", "remove", "attach", "flushunknown"}
 
@@ -313,7 +325,7 @@ func run(c *Case) error {
 	}
 	for _, it := range B {
 		if !S.WaitEntered(it.key, deadline) {
-			return hangErr(fmt.Sprintf("held request %s never reached the implementation", it.key))
+			return hang("held request %s never reached the implementation", it.key)
 		}
 	}
 	// 2. the others, while B is held
@@ -411,7 +423,7 @@ func run(c *Case) error {
 			}
 		}
 		if !progress && time.Since(t0) > deadline {
-			return hangErr(fmt.Sprintf("only %d of %d independent requests were answered while %d requests are held in the implementation", got, expectNow, len(B)))
+			return hang("only %d of %d independent requests were answered while %d requests are held in the implementation", got, expectNow, len(B))
 		}
 		if progress {
 			t0 = time.Now()
@@ -452,7 +464,7 @@ func run(c *Case) error {
 			}
 		}
 		if !progress && time.Since(t0) > deadline {
-			return hangErr(fmt.Sprintf("only %d of %d requests were answered after everything was released", got, total))
+			return hang("only %d of %d requests were answered after everything was released", got, total)
 		}
 		if progress {
 			t0 = time.Now()
@@ -538,6 +550,9 @@ func classify(c *Case) bool {
 }
 
 func execute(test string, c *Case) error {
+	if hangs >= 3 {
+		return nil
+	}
 	hx.Journal(test, c)
 	hx.Eval()
 	if classify(c) {
@@ -546,11 +561,12 @@ func execute(test string, c *Case) error {
 	}
 	hx.Sample(test, c)
 	err := run(c)
-	if h, ok := err.(hangErr); ok {
-		if blocked := hx.BlockedInGo9p(); blocked != "" {
-			return fmt.Errorf("%s; goroutines blocked inside go9p:\n%s", string(h), blocked)
+	if h, ok := err.(*hangErr); ok {
+		if h.blocked != "" {
+			return fmt.Errorf("%s; goroutines blocked inside go9p:\n%s", h.msg, h.blocked)
 		}
-		hx.Inconclusive(string(h))
+		hangs++
+		hx.Inconclusive(h.msg)
 		return nil
 	}
 	return err
